@@ -834,5 +834,131 @@ def make_api_baseline(units, path):
                 out[key] = "mixed"
             else:
                 out[key] = kind
-    json.dump(dict(sorted(out.items())), open(path, "w"), indent=0)
+    params = {}
+    amb = set()
+    for u in units:
+        for d in u.decls.values():
+            if d["k"] != "fn" or not C.in_lib(d.get("pfile", "")) or "::internal::" in d.get("pqn", ""):
+                continue
+            if d.get("access") not in (None, "public") or d.get("implicit") or d.get("lambdaop"):
+                continue
+            key = "%s|%d" % (d["pqn"], len(d["params"]))
+            kinds = [_pkind(p["type"]) for p in d["params"]]
+            if key in params and params[key] != kinds:
+                amb.add(key)       # overloads of one name and arity with different passing modes: not tabulated
+            params.setdefault(key, kinds)
+    for k in amb:
+        params.pop(k, None)
+    out2 = dict(sorted(out.items()))
+    out2["__params__"] = dict(sorted(params.items()))
+    json.dump(out2, open(path, "w"), indent=0)
     return len(out)
+
+
+# ------------------------------------------------------------------------------------------------
+# 12. shared_ptr that borrows: built from the address of something it does not own
+# ------------------------------------------------------------------------------------------------
+def borrowed_shared(chk, units, scope=None):
+    rule = "R-OWN.borrow"
+    chk.rule(rule, "no shared_ptr in library code is made to point at an object it does not own: construction from a raw "
+                   "pointer that is the address of a parameter / reference / member (&x), with a custom deleter, or through "
+                   "the aliasing constructor shared_ptr(owner, raw) - members of type shared_ptr<const X> are accepted as "
+                   "shared IMMUTABLE state only because every such pointer comes from make_shared / a copy")
+    n = 0
+    for u in units:
+        for f in u.funcs:
+            if f.dependent or not (scope(f) if scope else f.in_lib()):
+                continue
+            roots = [f.body] + [i["init"] for i in f.inits if i.get("init")]
+            for r in roots:
+                for x in (walk(r) if r is not None else ()):
+                    if x["k"] not in ("CXXConstructExpr", "CXXTemporaryObjectExpr"):
+                        continue
+                    d = u.decls.get(x.get("d"))
+                    if d is None or not d.get("recqn", "").startswith("std::shared_ptr<"):
+                        continue
+                    args = [a for a in kids(x) if a is not None and a["k"] != "CXXDefaultArgExpr"]
+                    if not args:
+                        continue
+                    n += 1
+                    ptypes = [p["type"] for p in d.get("params", ())]
+                    raw = [i for i, pt in enumerate(ptypes) if pt.rstrip().endswith("*")]
+                    if not raw:
+                        continue   # copy / move / from make_shared / nullptr
+                    why = None
+                    if len(ptypes) >= 2 and ptypes[0].replace("const ", "").startswith("std::shared_ptr<"):
+                        why = "the aliasing constructor shared_ptr(owner, pointer): the pointee's lifetime is not tied to " \
+                              "this pointer"
+                    elif len(args) >= 2:
+                        why = "a raw pointer with a custom deleter"
+                    else:
+                        a0 = strip(args[raw[0]]) if raw[0] < len(args) else None
+                        if a0 is not None and a0["k"] == "UnaryOperator" and a0.get("op") == "&":
+                            why = "the address of an existing object (&x)"
+                        elif a0 is not None and a0["k"] != "CXXNewExpr":
+                            why = "a raw pointer that is not the result of new"
+                    if why:
+                        chk.bad(rule, f.loc(x), f.pqn, "borrowing-shared_ptr",
+                                "a shared_ptr is constructed from %s: the object holding it does not own that state, so it "
+                                "changes or dies with the original" % why, witness=dict(instantiation=f.qn, unit=u.name))
+    chk.ok(rule, "include/bspline", "%d shared_ptr constructions: all own what they point to" % n, key="borrow")
+    return n
+
+
+# ------------------------------------------------------------------------------------------------
+# 13. API shape: parameters that were const references do not become mutable / forwarding references
+# ------------------------------------------------------------------------------------------------
+def _pkind(t):
+    t = t.strip()
+    if t.endswith("&&"):
+        return "rref"
+    if t.endswith("&"):
+        return "cref" if t.startswith("const ") or " const &" in t or "const&" in t else "ref"
+    return "value"
+
+
+def api_params(chk, units, baseline=None):
+    import json
+    rule = "R-API.param"
+    chk.rule(rule, "a parameter of a public library function that was a CONST reference on the reference tree is not a "
+                   "non-const or forwarding reference now (the function could then modify, or bind mutably to, what callers "
+                   "hand in - e.g. call a functor's non-const operator(), deduce a reference type for a stored scalar)")
+    if baseline is None:
+        path = os.path.join(C.VERIF, "api_baseline.json")
+        base = json.load(open(path)).get("__params__", {}) if os.path.exists(path) else None
+        if base is None or not base:
+            raise AnalysisBroken("api_baseline.json has no parameter table (run bin/mkbaseline)")
+    else:
+        base = baseline
+    n, seen, flagged = 0, set(), set()
+    # every declaration (pattern and instantiations) is compared with the tabulated passing modes (one per function template), not instantiations
+    for u in units:
+        for d in u.decls.values():
+            if d["k"] != "fn":
+                continue
+            if not C.in_lib(d.get("pfile", "")) or "::internal::" in d.get("pqn", ""):
+                continue
+            if d.get("access") not in (None, "public") or d.get("implicit") or d.get("lambdaop"):
+                continue
+            key = "%s|%d" % (d["pqn"], len(d["params"]))
+            was = base.get(key)
+            if was is None:
+                continue
+            now = [_pkind(p["type"]) for p in d["params"]]
+            if len(was) != len(now):
+                continue
+            if key not in seen:
+                seen.add(key)
+                n += 1
+            for i, (a, b) in enumerate(zip(was, now)):
+                if (key, i, b) in flagged:
+                    continue
+                if a == "cref" and b in ("ref", "rref"):
+                    flagged.add((key, i, b))
+                    chk.bad(rule, "%s:%d" % (C.rel(d["pfile"]), d["pline"]), d["pqn"], "param-%d-const-ref-to-%s" % (i + 1, b),
+                            "parameter %d of %s was a const reference on the reference tree and is %s now" % (
+                                i + 1, d["pqn"], "a non-const reference" if b == "ref" else
+                                "an rvalue / forwarding reference (a non-const lvalue argument is now bound mutably)"),
+                            witness=dict(declaration=d["qn"], type=d["params"][i]["type"]))
+    chk.ok(rule, "include/bspline", "%d public functions keep their const-reference parameters" % n, key="apiparam")
+    return n
